@@ -1477,6 +1477,13 @@ func help2names(c *Ctx, fn *ssa.Function) {
 					return false, false
 				}
 				path, last, ok := walkPath(entry, hdr, []*ssa.BasicBlock{hdr}, leaf)
+				broke := false
+				if (!ok || last != nil) && exit != nil {
+					// the iteration left the loop (a break once both names are settled): evaluate up to the
+					// loop's exit block instead
+					path, last, ok = walkPath(entry, exit, []*ssa.BasicBlock{hdr}, leaf)
+					broke = ok && last == nil
+				}
 				if !ok || last != nil {
 					c.Undecided(key+":iteration", fn.Pos(), "cannot evaluate one iteration for len(name)=%d", ln)
 					return
@@ -1484,6 +1491,24 @@ func help2names(c *Ctx, fn *ssa.Function) {
 				nv := map[*ssa.Phi]ssa.Value{}
 				for _, a := range accs {
 					nv[a] = resolveAlong(a, path)
+					if broke {
+						// what the exit block receives for this accumulator on the way we came
+						for _, xin := range exit.Instrs {
+							q, isQ := xin.(*ssa.Phi)
+							if !isQ {
+								break
+							}
+							fromHdr := false
+							for i, pb := range exit.Preds {
+								if pb == hdr && q.Edges[i] == ssa.Value(a) {
+									fromHdr = true
+								}
+							}
+							if fromHdr {
+								nv[a] = resolveAlong(q, path)
+							}
+						}
+					}
 				}
 				for _, a := range accs {
 					if nv[a] == n && !decided {
@@ -1541,6 +1566,18 @@ func help2format(c *Ctx, fn *ssa.Function, key string, kshort, klong *ssa.Phi, e
 				case ssa.Value(k.long):
 					return sc.l, true
 				}
+				// the value after the loop: a merge of the accumulator (loop exhausted) with what it was
+				// when the loop was left early
+				if q, isQ := x.(*ssa.Phi); isQ && q.Block() == exit {
+					for _, e := range q.Edges {
+						if e == ssa.Value(k.short) {
+							return sc.s, true
+						}
+						if e == ssa.Value(k.long) {
+							return sc.l, true
+						}
+					}
+				}
 				return false, false
 			}
 			if s, isS := ir.ConstString(bo.Y); isS && s == "" {
@@ -1569,11 +1606,41 @@ func help2format(c *Ctx, fn *ssa.Function, key string, kshort, klong *ssa.Phi, e
 		// a result variable: the value it has on this way through the function
 		result := resolveAlong(ret.Results[0], rpath)
 		ms, ml := mentionsValue(result, k.short, 0), mentionsValue(result, k.long, 0)
+		// or the value after the loop that stands for it (see has)
+		if exit != nil {
+			for _, xin := range exit.Instrs {
+				q, isQ := xin.(*ssa.Phi)
+				if !isQ {
+					break
+				}
+				for _, e := range q.Edges {
+					if e == ssa.Value(k.short) && mentionsValue(result, q, 0) {
+						ms = true
+					}
+					if e == ssa.Value(k.long) && mentionsValue(result, q, 0) {
+						ml = true
+					}
+				}
+			}
+		}
 		if cs, isC := ir.ConstString(result); isC {
 			c.Check(cs == "" && !sc.s && !sc.l, skey, fn.Pos(), "empty", "a constant is returned although a name exists")
 			continue
 		}
-		if (valEq(result, k.short) && !sc.s) || (valEq(result, k.long) && !sc.l) {
+		isAlias := func(v ssa.Value, acc *ssa.Phi) bool {
+			if valEq(v, acc) {
+				return true
+			}
+			if q, isQ := v.(*ssa.Phi); isQ && exit != nil && q.Block() == exit {
+				for _, e := range q.Edges {
+					if e == ssa.Value(acc) {
+						return true
+					}
+				}
+			}
+			return false
+		}
+		if (isAlias(result, k.short) && !sc.s) || (isAlias(result, k.long) && !sc.l) {
 			// the selection itself, which is empty in this case
 			c.Check(!sc.s && !sc.l, skey, fn.Pos(), "empty", "nothing is shown although a name exists")
 			continue
